@@ -106,21 +106,23 @@ pub fn c16_hdr_nested() {
     same_stream(&a, na, &c, nc);
 }
 
-/// The slice/iterator streams deserialize as the vector type in both modes.
-#[cfg_attr(kani, kani::proof)] #[cfg_attr(kani, kani::unwind(60))]
+/// The slice/iterator streams deserialize as the vector type in both modes
+/// (inner streams; the headers are compared byte for byte in `c16_hdr_*`).
+#[cfg_attr(kani, kani::proof)] #[cfg_attr(kani, kani::unwind(6))]
 pub fn c16_deser_as_vec() {
     let v: Vec<u16> = vec_upto::<u16, 2>();
-    let mut b = Sink::<96>::new();
-    let it = SerIter::new(v.iter());
-    let nb = it.serialize(&mut b).unwrap();
-    let mut al = Al::<96>::zero();
+    let mut b = Sink::<32>::new();
+    let nb;
+    { let it = SerIter::new(v.iter()); let mut w = WriterWithPos::new(&mut b); w.write_all(&[0xAA; 1]).unwrap(); SerializeInner::_serialize_inner(&it, &mut w).unwrap(); nb = w.pos(); }
+    let mut al = Al::<32>::zero();
     al.0 = b.buf;
-    let e = <Vec<u16>>::deserialize_eps(&al.0[..nb]);
-    match &e { Ok(e) => { assert!(eqs(e, &v), "C16: iterator stream eps-deserializes as the vector"); } Err(_) => { assert!(false, "C16: iterator stream is accepted as Vec<T>"); } }
+    let mut sl = epserde::deser::SliceWithPos { data: &al.0[1..nb], pos: 1 };
+    let e = <Vec<u16> as DeserializeInner>::_deserialize_eps_inner(&mut sl);
+    match &e { Ok(e) => { assert!(eqs(e, &v) && sl.pos == nb, "C16: iterator stream eps-deserializes as the vector"); } Err(_) => { assert!(false, "C16: iterator stream is accepted as Vec<T>"); } }
     core::mem::forget(e);
-    let mut rd = Exact::new(&al.0[..nb]);
-    let f = <Vec<u16>>::deserialize_full(&mut rd);
-    match &f { Ok(f) => { assert!(eqs(f, &v), "C16: iterator stream full-deserializes as the vector"); } Err(_) => { assert!(false, "C16: iterator stream is accepted as Vec<T>"); } }
+    let mut sf = epserde::deser::SliceWithPos { data: &al.0[1..nb], pos: 1 };
+    let f = <Vec<u16> as DeserializeInner>::_deserialize_full_inner(&mut sf);
+    match &f { Ok(f) => { assert!(eqs(f, &v) && sf.pos == nb, "C16: iterator stream full-deserializes as the vector"); } Err(_) => { assert!(false, "C16: iterator stream is accepted as Vec<T>"); } }
     core::mem::forget(f);
 }
 
